@@ -147,12 +147,14 @@ COQ_HDR = ("From Coq Require Import List Bool Arith NArith String.\nFrom V.C05 R
            "                     (rp_wf x, rp_disc x, rp_local x, rp_plain x, rp_concl x))) end.\n")
 
 
-def run_model(ctx, seg_list, tag, per=12):
+def run_model(ctx, seg_list, tag, per=6):
     chunks = [seg_list[i:i + per] for i in range(0, len(seg_list), per)]
     files = {}
     for k, c in enumerate(chunks):
         files[f"{tag}{k}"] = COQ_HDR + "Definition cases : list rT := [\n" + ";\n".join(f"enc (run_report {coq_segs(s)})" for s in c) + "].\nEval vm_compute in cases.\n"
-    outs = ctx.coq_eval_many(files)
+    # small files + a generous per-file timeout: on an oversubscribed machine a coqc that needs one CPU
+    # minute can take a quarter of an hour of wall time
+    outs = ctx.coq_eval_many(files, timeout=2400)
     res = []
     for k in range(len(chunks)):
         res += vlib.parse_coq_values(outs[f"{tag}{k}"])[0]
